@@ -1,5 +1,6 @@
 import DiscretModel.Model.Proto
 import DiscretModel.Model.Events
+import DiscretModel.Model.Fts
 /-
 Model driver for engine `events` (C18; C17 is added as a second interpreter selected by `eng=`).
   case id=<n> eng=ev sites=<k> subs=<k>        -> "case <n>"
@@ -57,9 +58,45 @@ def fmtMix (nsites : Nat) (evs : List Ev) (gained : List Cell) : String :=
   let dpart := s!"Dx{datas.length}[{fmtCells datas.flatten}]"
   trimRight s!"ok ev {joinWith " " (rparts ++ [dpart])} | g {fmtCells gained}"
 
-structure DState where
+structure EvState where
   nsites : Nat
   st : State
+
+inductive DState where
+  | ev (s : EvState)
+  | fts (s : Fts.State)
+
+/-! ### C17 interpreter (`eng=fts`), see harness/events/src/fts.rs -/
+
+def parseWords (s : String) : Option (List Nat) :=
+  ((s.splitOn "+").filter (· ≠ "")).mapM String.toNat?
+
+def parseFtsOp (toks : List String) : Option Fts.Op :=
+  match toks with
+  | "model" :: rest => do
+    let v ← nat? rest "v"
+    if v ≥ 4 then none else some (.model (← nat? rest "s") v)
+  | "new" :: rest => do
+    let e ← nat? rest "e"
+    if e ≥ 2 then none
+    else some (.new (← nat? rest "s") (← nat? rest "n") e (← parseWords ((kv? rest "w").getD "")))
+  | "upd" :: rest => do some (.upd (← nat? rest "s") (← nat? rest "n") (← parseWords ((kv? rest "w").getD "")))
+  | "clr" :: rest => do some (.clr (← nat? rest "s") (← nat? rest "n"))
+  | "del" :: rest => do some (.del (← nat? rest "s") (← nat? rest "n"))
+  | "pull" :: rest => do some (.pull (← nat? rest "s") (← nat? rest "from"))
+  | "q" :: rest => do
+    let e ← nat? rest "e"
+    if e ≥ 2 then none else some (.q (← nat? rest "s") e (← nat? rest "t"))
+  | "qall" :: rest => do some (.qall (← nat? rest "s"))
+  | _ => none
+
+def fmtNats (l : List Nat) : String := joinWith "," (l.map toString)
+
+def fmtFtsOut : Fts.Out → String
+  | .ok => "ok"
+  | .skip => "skip"
+  | .hits rows => trimRight s!"hits {fmtNats rows}"
+  | .all res => trimRight s!"all {joinWith ";" (res.map fun x => s!"{x.1}:{x.2.1}:{fmtNats x.2.2}")}"
 
 def parseRows (s : String) : Option (List (Nat × Room × Ent)) :=
   (s.splitOn ",").mapM fun t =>
@@ -135,17 +172,23 @@ def stepLine (ds : Option DState) (line : String) : Option DState × String :=
   let toks := tokens line
   match toks with
   | "case" :: rest =>
+    let n := match nat? rest "sites" with
+      | some k => if k < 1 then 1 else if k > 2 then 2 else k
+      | none => 1
     match nat? rest "id", kv? rest "eng" with
-    | some i, some "ev" =>
-      let n := match nat? rest "sites" with
-        | some k => if k < 1 then 1 else if k > 2 then 2 else k
-        | none => 1
-      (some { nsites := n, st := init Defects.asImplemented n }, s!"case {i}")
+    | some i, some "ev" => (some (.ev { nsites := n, st := init Defects.asImplemented n }), s!"case {i}")
+    | some i, some "fts" => (some (.fts (Fts.init Fts.Defects.asImplemented n)), s!"case {i}")
     | _, _ => (none, "bad-op")
   | _ =>
     match ds with
     | none => (none, "bad-op")
-    | some d =>
+    | some (.fts st) =>
+      match parseFtsOp toks with
+      | none => (ds, "bad-op")
+      | some op =>
+        let r := Fts.step st op
+        (some (.fts r.1), fmtFtsOut r.2)
+    | some (.ev d) =>
       match parseOp toks with
       | none => (ds, "bad-op")
       | some op =>
@@ -162,7 +205,7 @@ def stepLine (ds : Option DState) (line : String) : Option DState × String :=
                 "ok+def" ++ (fmtObs d.nsites evs g).drop 2
               else fmtObs d.nsites evs g
             | _ => fmtObs d.nsites evs g
-        (some { d with st := r.1 }, out)
+        (some (.ev { d with st := r.1 }), out)
 
 def main : IO Unit := do
   loop (← IO.getStdin) (← IO.getStdout) stepLine none
